@@ -425,6 +425,39 @@ def view_checks(drv, rng):
     return out
 
 
+def view_edit_checks():
+    """Structure edits are not defined on the fixed-shape views (Conformer of an ensemble, Substructure):
+    whatever they do, they must not leave the shared parent with atoms and coordinate rows out of step."""
+    import numpy as np
+    import molli as ml
+    from molli.chem import Atom
+    out, n = [], 0
+    ens = ml.ConformerEnsemble.load_mol2(str(ml.files.pentane_confs_mol2))
+    mol = ml.Molecule.load_mol2(str(ml.files.dmf_mol2))
+    views = [("Conformer", ens[1], ens, lambda: (list(map(id, ens.atoms)), ens.coords.shape, ens.atomic_charges.shape)),
+             ("Substructure", mol.substructure([0, 2, 4]), mol, lambda: (list(map(id, mol.atoms)), mol.coords.shape, mol.atomic_charges.shape))]
+    for cname, view, parent, shape in views:
+        for oname, call in (("add_atom", lambda v: v.add_atom(Atom("H"), [0.5, 0.25, 0.125])),
+                            ("new_atom", lambda v: v.new_atom("H", coord=[0.5, 0.25, 0.125])),
+                            ("del_atom", lambda v: v.del_atom(0)),
+                            ("del_atom(obj)", lambda v: v.del_atom(v.atoms[1]))):
+            before = shape()
+            own_before = list(map(id, view.atoms))
+            try:
+                call(view)
+                raised = False
+            except Exception:
+                raised = True
+            n += 1
+            after = shape()
+            na, rows = len(after[0]), after[1][-2]
+            if na != rows or (raised and (after != before or list(map(id, view.atoms)) != own_before)):
+                out.append((f"C05:view:{cname}.{oname}", f"{cname}.{oname} " + ("raised and" if raised else "returned and")
+                            + f" left the parent with {na} atoms, coords {after[1]}, charges {after[2]} (before: {len(before[0])}, {before[1]})",
+                            {"kind": "view"}))
+    return out, n
+
+
 # ------------------------------------------------------------------ start states
 def make_start(spec):
     """spec = {"src": "empty"|"<x>_mol2"|"cdxml:<key>", "kind": "mol"|"struct", "clone": bool, "pre": [ops]}"""
@@ -794,6 +827,13 @@ def run(ctx, rep):
             rep.violate(sig, text + f" [start={spec}, step {step}]", {"kind": "history", "spec": spec, "ops": done[:step + 1] if step >= 0 else []})
     for sig, text, rp in confirm_known():
         rep.violate(sig, text, rp)
+    vfound, nv = view_edit_checks()
+    for sig, text, rp in vfound:
+        found = True
+        rep.violate(sig, text, rp)
+    for _ in range(nv):
+        rep.case(key=None)
+    rep.count("view-edit-scenarios", nv)
 
     bad = vlib.run_shards(ctx, rep, "c05", HEADER, "check_case", cases, shard=(120 if ctx.thorough else 60),
                           timeout=900, case_type="case")
@@ -822,6 +862,9 @@ def replay(ctx, data):
         for sig, text, rp in confirm_known():
             if rp["which"] == data.get("which"):
                 out.append(vlib.Violation(sig, text))
+    elif data.get("kind") == "view":
+        for sig, text, rp in view_edit_checks()[0]:
+            out.append(vlib.Violation(sig, text))
     elif data.get("kind") == "history":
         _, _, findings, _ = run_history(data["spec"], data["ops"], ctx.rng, want_views=True)
         seen = set()
